@@ -357,6 +357,8 @@ func evaluate(s *rt.Spec, scn *rt.Scenario, prop string) (mine, other []rt.Findi
 	var all []rt.Finding
 	if prop == "C20" && res.hang == "" && res.inconclusive == "" && rt.Lookup(s.Name+"@mod") != nil {
 		// differential: the same scenario against the modifier-mode twin
+		writeJSON(outPath("cur-"+*flagTag+".json"), failRecord{Prop: prop, Engine: "bin", Prog: s.Name, Spec: s, Scenario: scn,
+			Findings: []rt.Finding{{Prop: "C20", Msg: "the process died while the modifier-mode twin of this flow was executing this scenario (base-mode code had just handled it)"}}})
 		res2 := executeAs(s, scn, prop, s.Name+"@mod")
 		switch {
 		case res2.hang != "":
